@@ -427,3 +427,5 @@ MUTANTS = [
 ]
 
 RENAME_FUNCS = [(F, 'sequence_to_pianoroll'), (F, 'pianoroll_to_note_sequence')]
+
+EXPLANATION += (' Location-independent additions: DEC/silent-pitch-start, DEC/offset-silences, WINDOW/end-clamp, DEC/onset-then-offset definite when both statements are located in the wrong order.')
